@@ -58,6 +58,52 @@ def gen(rng):
     return ref, L, t, centre, w
 
 
+def units_failure(ref, L, t, centre, w, unit):
+    """the same geometry expressed in another length unit (metres instead of pixels): every coordinate scales, the linear part does not.
+    Absolute tolerances are relative to the size of the coordinates."""
+    ref, t = ref * unit, t * unit
+    centre = None if centre is None else centre * unit
+    peaks = ref @ L + t
+    sc = max(np.abs(peaks).max(), np.abs(ref).max())
+    try:
+        fit = grm.get_transformation(ref, peaks, center=centre, weighs=w)
+        back = grm.do_transformation(fit, ref, center=centre)
+    except Exception as e:  # noqa
+        return 'raised %s: %s (unit %g)' % (type(e).__name__, e, unit)
+    if np.abs(back - peaks).max() > 1e-8 * sc:
+        return 'coordinates in units of %g px: round trip misses the target points by %.4g (coordinates up to %.4g)' % (unit, np.abs(back - peaks).max(), sc)
+    M = np.zeros((3, 3))
+    M[0:2, 0:2], M[2, 0:2], M[2, 2] = L, t, 1
+    c = grm.find_center(M)
+    c2 = grm.do_transformation(M, np.array([c]))[0]
+    if not np.isfinite(c).all() or np.abs(c2 - c).max() > 1e-7 * max(sc, np.abs(c).max()) * np.linalg.cond(L - np.eye(2)):
+        return 'coordinates in units of %g px: centre %s is not the fixed point (maps to %s)' % (unit, np.asarray(c).tolist(), np.asarray(c2).tolist())
+    return None
+
+
+def tracking_failure(seed, steps=5):
+    """frame-to-frame tracking: one reference buffer is updated in place (ref[:] = target) between unweighted fits with the same centre;
+    every fit must be the fit of the arrays' CURRENT contents"""
+    r = np.random.default_rng(seed)
+    n = int(r.integers(3, 12))
+    while True:
+        ref = r.uniform(-50, 80, size=(n, 2))
+        if np.linalg.cond(np.hstack([ref - ref.mean(axis=0), np.ones((n, 1))])) < 1e3:
+            break
+    centre = [None, np.zeros(2), r.uniform(-30, 60, 2)][int(r.integers(0, 3))]
+    for k in range(steps):
+        L, t = rand_map(r)
+        L = np.eye(2) + 0.05 * (L - np.eye(2))          # small frame-to-frame change
+        peaks = ref @ L + t
+        sc = max(1.0, np.abs(peaks).max(), np.abs(ref).max())
+        fit = grm.get_transformation(ref, peaks, center=centre)
+        back = grm.do_transformation(fit, ref, center=centre)
+        if np.abs(back - peaks).max() > 1e-8 * sc:
+            return 'step %d of a tracking loop (reference buffer updated in place before this fit): round trip misses the target points by %.4g' % (k, np.abs(back - peaks).max())
+        ref[:] = peaks                                # in-place update of the same array object
+    return None
+
+
 def gen_hard(rng):
     """exactly affine point sets whose design matrix is badly scaled: a small group of neighbouring spots far away from the centre
     argument, or weights spread over many decades (any centre and any positive weights are allowed)"""
@@ -173,6 +219,20 @@ def mk_replay(ref, L, t, centre, w, fail, noise=None):
 
 def replay(body):
     a = body['args']
+    if 'tracking_seed' in a:
+        fail = tracking_failure(a['tracking_seed'])
+        print(json.dumps({'failure_now': fail}, indent=1))
+        if fail:
+            print('VIOLATION property=C20 replay=(given)')
+            return 1
+        return 0
+    if 'unit' in a:
+        fail = units_failure(np.array(a['ref']), np.array(a['L']), np.array(a['t']), None if a['center'] is None else np.array(a['center']), None if a['weights'] is None else np.array(a['weights']), a['unit'])
+        print(json.dumps({'failure_now': fail}, indent=1))
+        if fail:
+            print('VIOLATION property=C20 replay=(given)')
+            return 1
+        return 0
     fail = stmt_failure(np.array(a['ref']), np.array(a['L']), np.array(a['t']), None if a['center'] is None else np.array(a['center']), None if a['weights'] is None else np.array(a['weights']),
                         None if a.get('noise') is None else np.array(a['noise']))
     print(json.dumps({'failure_now': fail}, indent=1))
@@ -243,6 +303,24 @@ def run(ctx):
         ctx.hist('weights', 'none' if w is None else ('uniform' if np.ptp(w) == 0 else 'random'))
         if fail:
             ctx.violation('input', fail, mk_replay(ref, L, t, centre, w, fail, noise))
+            break
+    for k in range(ctx.n(60, 600)):
+        ref, L, t, centre, w = gen(rng)
+        unit = float(rng.choice([1e-9, 1e-8, 1e-6, 55e-6, 1e3, 1e6]))
+        fail = units_failure(ref, L, t, centre, w, unit)
+        ctx.count(1)
+        ctx.hist('length unit', unit)
+        if fail:
+            r_ = mk_replay(ref, L, t, centre, w, fail, None)
+            r_['args']['unit'] = unit
+            ctx.violation('input', fail, r_)
+            break
+    for k in range(ctx.n(20, 200)):
+        sd = int(rng.integers(0, 2 ** 31))
+        fail = tracking_failure(sd)
+        ctx.count(5)
+        if fail:
+            ctx.violation('input', fail, {'kind': 'history', 'call': 'get_transformation in a tracking loop', 'args': {'tracking_seed': sd}, 'failure': fail})
             break
     for k in range(ctx.n(80, 800)):
         ref, L, t, centre, w = gen_hard(rng)
